@@ -326,6 +326,8 @@ class SimDevice(object):
         self.default_script = None
         self.sync_plan = SyncPlan(self.rng)
         self.refuse = set()       # dests refused with CLSE
+        self.eager = False        # True: the device puts everything it can say on the wire as soon as a host packet arrives (a fast device);
+                                  # False: it decides lazily, when the host reads (a slow device)
         self.silent = False       # device stops talking completely
         self.stop_after = None    # device stops talking once this many packets were emitted (absolute index)
         self.mute_streams = set() # local ids whose packets are withheld
@@ -379,6 +381,9 @@ class SimDevice(object):
             if self.on_host_packet:
                 self.on_host_packet(pkt)
             self._handle(pkt, actor)
+            if self.eager:
+                while self.produce():
+                    pass
 
     def _handle(self, pkt, actor):
         cmd = pkt.cmd
